@@ -17,7 +17,7 @@ CONSTANTS
   MaxCmds = 1
   Cmds = {"SeekTo", "SeekBy", "SetLoop"}
   SeekRevives = TRUE
-  SeekByHeard = FALSE
+  SeekByHeard = TRUE
   Wide = FALSE
 VIEW View
 INVARIANTS PropertyHolds NoPanic TypeOK IndexInSlice WindowInSlice StoppedMeansDrained NoHang
